@@ -5,7 +5,7 @@ declare -A OWN=( [D1]=C03 [D2]=C12 [D3]=C05 [D4]=C13 [D5]=C20 [D6]=C07 [D7]=C17 
 for d in seeded/*/; do
   id=$(basename $d)
   [ -n "${1:-}" ] && [[ "$id" != $1* ]] && continue
-  p=${OWN[$id]:-${id%%-*}}; p=${p%b}; p=${p%c}
+  p=${OWN[$id]:-${id%%-*}}; p=${p%b}; p=${p%c}; p=${p%d}
   out=$(IOPT_REPO=${IOPT_REPO:-/repo} VERIF_EVIDENCE_DIR=/tmp/ev_sweep VERIF_JOB_WALL=${VERIF_JOB_WALL:-240} tools/try_mutant.sh /verif/$d/patch.diff ./check $p --tier quick 2>&1)
   rc=$(echo "$out" | grep -o "exit=[0-9]*" | tail -1)
   v=$(echo "$out" | grep -m1 VIOLATION)
